@@ -259,10 +259,20 @@ def keyLe : List Int → List Int → Bool
   | _ :: _, [] => false
   | a :: as, b :: bs => a < b || (a == b && keyLe as bs)
 
-def keyOf (s : Seq) : Except Err (List Int) :=
-  s.mapM fun it => match it with
-    | .bool _ => .error .XPTY0004 | .fn _ => .error .FOTY0013
-    | x => match numOf x with | some v => .ok v.1 | none => .error .XPTY0004
+/-- one key component as an integer: numerics `2·v`, booleans `2·b + 1` (false < true; the parity
+keeps the type, so that a boolean is never silently compared with a number) -/
+def keyAtom : Item → Except Err Int
+  | .bool b => .ok (if b then 3 else 1)
+  | .fn _ => .error .FOTY0013
+  | x => match numOf x with | some v => .ok (2 * v.1) | none => .error .XPTY0004
+
+def keyOf (s : Seq) : Except Err (List Int) := s.mapM keyAtom
+
+/-- the keys of one sort are comparable: at every position all keys that have that position hold the
+same type (xs:boolean or numeric); `deep_compare` raises XPTY0004 for a boolean against a number -/
+def keysUniform : List (List Int) → Bool
+  | [] => true
+  | k :: ks => ks.all (fun k' => (k.zip k').all fun p => p.1 % 2 == p.2 % 2) && keysUniform ks
 
 /-- insert an item in front of the first item whose key is not smaller (so before all items
 with an equal key: used from the right end of the input this keeps equal keys in input order) -/
@@ -386,7 +396,7 @@ is returned as it is (the key function need not be called). -/
 def specSort (a : Nat) (xs : Seq) : SM Seq :=
   if xs.length < 2 then pure xs else do
     let ks ← specKeys callf a xs
-    pure ((sortSpec ks).map (·.1))
+    if keysUniform (ks.map (·.2)) then pure ((sortSpec ks).map (·.1)) else SM.throw .XPTY0004
 
 end HOF
 
@@ -439,21 +449,9 @@ def specPartial (c : SCtx) (a : Nat) (args : List (Option Expr)) : SM Seq := do
   else SM.throw .XPTY0004
 
 /-- the function argument of a higher-order function: exactly one function item -/
-def specFunArg (c : SCtx) (f : Expr) : SM Nat :=
-  match f with
-  | .fnE _ ps body =>
-    -- a function expression written in argument position: its closure (evaluated in place)
-    SM.alloc { code := .inline ps body, lex := c.lex, fixed := none }
-  | _ => do
-    let v ← ev f c
-    SM.single v
-
-/-- the key function of `fn:sort` (always through the evaluator), of arity 1 -/
-def specFunArgEN (c : SCtx) (f : Expr) (n : Nat) : SM Nat := do
+def specFunArg (c : SCtx) (f : Expr) : SM Nat := do
   let v ← ev f c
-  let a ← SM.single v
-  let o ← SM.getObj a
-  if o.arity = n then pure a else SM.throw .XPTY0004
+  SM.single v
 
 /-- ... of the arity the signature of the higher-order function asks for (`function(item()) as …`,
 `function(item()*, item()) as …`): XPTY0004 otherwise (function conversion rules) -/
@@ -589,7 +587,7 @@ def specStep (e : Expr) (c : SCtx) : SM Seq :=
       let ys ← ev s2 c
       specForEachPair (specCall ev) a xs ys
   | .sortK s f => do
-    let a ← specFunArgEN ev c f 1
+    let a ← specFunArgN ev c f 1
     let xs ← ev s c
     specSort (specCall ev) a xs
   | .apply f ms => do
